@@ -5,6 +5,7 @@ import CamVerif.Proofs.C17Kinds
 set_option linter.unusedSimpArgs false
 namespace CamVerif.XmlParse
 variable {F : Type}
+variable [TextFrag]
 
 theorem parseWhile_none {α : Type} (tag : Str) (p : P F α) (segs : List Seg) (st : St F)
     (h : canStart tag segs = false) :
